@@ -20,6 +20,42 @@ type sgen struct {
 	// multiRules (opt-in; the default streams stay as they are): rule lists (required_if / required_if_not / conflicts) of
 	// 1..3 names in ANY order - the constructors keep the order they are given
 	multiRules bool
+	// richDefaults (opt-in; the default streams stay as they are): more than half of the properties have a default, and
+	// CONTAINER-valued ones too - JSON lists / maps (nested) on `any`, non-empty lists and maps on list / map types: decoded
+	// once into the object's default cache, they are the values every call that omits the property is handed
+	richDefaults bool
+}
+
+// richDefaultFor: defaultFor plus container-valued defaults (nil: no default for this type).
+func richDefaultFor(r *Rng, t *sx.Node) *string {
+	if !t.IsList() && !t.IsStr && t.Atom == "any" {
+		return sp(pick(r, []string{`[1,2,3]`, `["a",["b","c"],[]]`, `{"k":[1,2]}`, `{"a":{"b":[true,false]},"l":[1.5]}`, `[{"x":[1]},{"y":[]}]`,
+			`[]`, `{}`, `"s"`, `5`, `[[1,2],[3]]`}))
+	}
+	if t.IsList() && t.Head() == "list" {
+		it := t.List[1]
+		switch {
+		case it.IsList() && it.Head() == "int" && it.List[3].String() == none().String() && it.List[1].String() == none().String() && it.List[2].String() == none().String():
+			return sp(pick(r, []string{`[1,2]`, `[]`, `[7]`}))
+		case it.IsList() && it.Head() == "string" && it.List[1].String() == none().String() && it.List[2].String() == none().String() && it.List[3].String() == none().String():
+			return sp(pick(r, []string{`["a","b"]`, `[]`}))
+		case !it.IsList() && !it.IsStr && it.Atom == "any":
+			return sp(pick(r, []string{`[[1,2],{"k":[3]}]`, `[1,"a"]`, `[]`}))
+		}
+		if len(t.List) > 2 && t.List[2].String() == none().String() {
+			return sp("[]")
+		}
+		return nil
+	}
+	if t.IsList() && t.Head() == "map" {
+		k, v := t.List[1], t.List[2]
+		if k.IsList() && k.Head() == "string" && k.List[1].String() == none().String() && k.List[2].String() == none().String() && k.List[3].String() == none().String() &&
+			!v.IsList() && !v.IsStr && v.Atom == "any" && t.List[3].String() == none().String() && t.List[4].String() == none().String() {
+			return sp(pick(r, []string{`{"a":[1,2]}`, `{"a":{"b":[1]},"c":"d"}`, `{}`}))
+		}
+		return nil
+	}
+	return defaultFor(r, t)
 }
 
 // ruleNames: one name of the list, or - under multiRules - up to three distinct names in any order.
@@ -243,7 +279,17 @@ func (g *sgen) props(depth, n int, names []string) []propD {
 				p.conflicts = g.ruleNames(others)
 			}
 		}
-		if r.Chance(15) {
+		if g.richDefaults {
+			if r.Chance(25) {
+				p.t = dAny() // more `any`-typed properties: the type whose defaults are arbitrary JSON containers
+			}
+			if r.Chance(60) {
+				if p.dflt = richDefaultFor(r, p.t); p.dflt != nil {
+					// a property with a default may be left out: no presence rule demands it
+					p.required, p.requiredIf, p.requiredIfNot = false, nil, nil
+				}
+			}
+		} else if r.Chance(15) {
 			p.dflt = defaultFor(r, p.t)
 		}
 		if r.Chance(4) {
